@@ -844,6 +844,17 @@ def check_batch(ctx: Context, rep, rule: str) -> None:
                    message=f"required {sorted(want)}", sample=False)
 
 
+def stream_scope(ctx: Context):
+    mod = ctx.repo.module(ITM)
+    helpers = [mod.func(n) for n in ("shuffle_buffer", "shuffle_buffer_async",
+                                     "round_robin", "round_robin_async")]
+    scope = helpers + [
+        ctx.fn("sedpack.io.itertools.lazy_pool:LazyPool.imap_unordered"),
+        ctx.fn(C.INTERFACES[2]), ctx.fn(C.INTERFACES[1]),
+        ctx.fn(C.INTERFACES[3]), ctx.fn(C.COMMON)]
+    return helpers, scope
+
+
 def run(ctx: Context, rep) -> None:
     rep.not_decided = (
         "the multiset actually yielded under thread timings, tf.data "
@@ -857,13 +868,7 @@ def run(ctx: Context, rep) -> None:
         "zip pulls its arguments left to right and stops at the first "
         "exhausted one",
     ]
-    mod = ctx.repo.module(ITM)
-    helpers = [mod.func(n) for n in ("shuffle_buffer", "shuffle_buffer_async",
-                                     "round_robin", "round_robin_async")]
-    scope = helpers + [
-        ctx.fn("sedpack.io.itertools.lazy_pool:LazyPool.imap_unordered"),
-        ctx.fn(C.INTERFACES[2]), ctx.fn(C.INTERFACES[1]),
-        ctx.fn(C.INTERFACES[3]), ctx.fn(C.COMMON)]
+    helpers, scope = stream_scope(ctx)
     check_iter(ctx, rep, "C02.iter", scope)
     check_zip(ctx, rep, "C02.zip", scope)
     check_borrow(ctx, rep, "C02.borrow", scope)
@@ -895,6 +900,9 @@ def run(ctx: Context, rep) -> None:
     c13.check_consumer(ctx, rep, "C02.pool-consumer")
     rustrules.check_rotation(ctx, rep, "C02.rust-dispatch")
     rustrules.check_cursor(ctx, rep, "C02.rust-cursor")
+    from sa.rules import shared
+    shared.check_no_memo(ctx, rep, "C02.memo")
+
 
 
 _IT = "src/sedpack/io/itertools/itertools.py"
